@@ -22,7 +22,7 @@ func derivedSetBody(s *simrt.Sim) {
 		nsrc = 2
 	}
 	srcs := make([]rx.Set[int], nsrc)
-	overlapReported := false
+	inexactReport := false
 	for i := range srcs {
 		var init []int
 		if s.Choose(2) == 1 {
@@ -30,11 +30,14 @@ func derivedSetBody(s *simrt.Sim) {
 		}
 		srcs[i] = rx.NewSet(init...)
 		s.Logf("config src%d init=%s", i, fmtInts(init))
-		// observation only: did a source ever report an element as added and deleted in the same update?
+		// observation only: did a source ever report a change that did not happen (an element as added that it
+		// had already reported, or as deleted that it had not)?
+		view := ds.NewSet[int]()
 		srcs[i].OnUpdate(func(m ds.SetMutations[int]) {
 			a, d := mutSlices(m)
-			if intersects(a, d) {
-				overlapReported = true
+			aa, ad := mutSlices(view.Apply(ds.NewSetMutations(a...).WithDeletedElements(ds.NewSet(d...))))
+			if !eqInts(a, aa) || !eqInts(d, ad) {
+				inexactReport = true
 			}
 		})
 	}
@@ -101,8 +104,8 @@ func derivedSetBody(s *simrt.Sim) {
 
 	contents := func(i int) []int { return sortedInts(srcs[i].ToSlice()) }
 	suffix := func() string {
-		if overlapReported {
-			return ":source-reported-elements-both-added-and-deleted"
+		if inexactReport {
+			return ":after-source-reported-a-change-that-did-not-happen"
 		}
 		return ""
 	}
@@ -220,8 +223,12 @@ func derivedSetBody(s *simrt.Sim) {
 // sorted set
 
 func sortedSetBody(s *simrt.Sim) {
-	noDelete := simrt.ConfigHas("nodelete")
-	disjoint := simrt.ConfigHas("disjoint")
+	// configurations (VERIF_CONFIG token):
+	//   ""         members add, delete and replace any element; weighers change any weight
+	//   nodelete   members only add
+	//   noadd      all elements are members from the start; members only delete
+	//   disjoint   elements 3,4 are members from the start and only change weight; members add/delete 1,2 only
+	noDelete, noAdd, disjoint := simrt.ConfigHas("nodelete"), simrt.ConfigHas("noadd"), simrt.ConfigHas("disjoint")
 	const n = setUniverse
 	weights := make([]rx.Variable[int], n+1)
 	for e := 1; e <= n; e++ {
@@ -231,18 +238,33 @@ func sortedSetBody(s *simrt.Sim) {
 		}
 	}
 	ss := rx.NewSortedSet(func(e int) rx.Variable[int] { return weights[e] })
-	// in the "disjoint" configuration elements 1,2 may be deleted but keep their weight; 3,4 change weight but are never deleted
-	deletable := []int{1, 2, 3, 4}
-	weighable := []int{1, 2, 3, 4}
+	addable, deletable, weighable := []int{1, 2, 3, 4}, []int{1, 2, 3, 4}, []int{1, 2, 3, 4}
 	if disjoint {
-		deletable, weighable = []int{1, 2}, []int{3, 4}
+		addable, deletable, weighable = []int{1, 2}, []int{1, 2}, []int{3, 4}
 	}
 	for e := 1; e <= n; e++ {
-		if s.Choose(3) == 1 {
+		if noAdd || disjoint && e >= 3 || s.Choose(3) == 1 {
 			ss.Add(e)
 		}
 	}
-	s.Logf("config nodelete=%v disjoint=%v initial=%v", noDelete, disjoint, ss.Descending())
+	s.Logf("config nodelete=%v noadd=%v disjoint=%v initial=%v", noDelete, noAdd, disjoint, ss.Descending())
+	pick := func(from []int, nonEmpty bool) (out []int) {
+		for _, e := range from {
+			if s.Choose(2) == 1 {
+				out = append(out, e)
+			}
+		}
+		if nonEmpty && len(out) == 0 {
+			out = []int{from[s.Choose(len(from))]}
+		}
+		return out
+	}
+	// calls that may insert an element / change its weight, per element (to attribute a wrong final order)
+	type ecall struct {
+		call
+		elems []int
+	}
+	var adds, weighs []*ecall
 
 	nmembers := 1 + s.Choose(2)
 	for i := 0; i < nmembers; i++ {
@@ -257,6 +279,8 @@ func sortedSetBody(s *simrt.Sim) {
 			switch {
 			case noDelete:
 				k = []int{0, 2}[s.Weighted(5, 2)]
+			case noAdd:
+				k = []int{1, 3}[s.Weighted(5, 2)]
 			case disjoint:
 				k = s.Weighted(5, 4, 2, 2)
 			default:
@@ -265,22 +289,15 @@ func sortedSetBody(s *simrt.Sim) {
 			o := op{kind: k, pre: s.Choose(3)}
 			switch k {
 			case 0:
-				o.a = []int{1 + s.Choose(n)}
+				o.a = []int{addable[s.Choose(len(addable))]}
 			case 1:
 				o.a = []int{deletable[s.Choose(len(deletable))]}
 			case 2:
-				o.a = subset(s, n, true)
+				o.a = pick(addable, true)
 			case 3:
-				for _, e := range deletable {
-					if s.Choose(2) == 1 {
-						o.a = append(o.a, e)
-					}
-				}
-				if len(o.a) == 0 {
-					o.a = []int{deletable[0]}
-				}
+				o.a = pick(deletable, true)
 			case 4:
-				o.a = subset(s, n, false)
+				o.a = pick(addable, false)
 			}
 			ops[j] = o
 		}
@@ -288,23 +305,29 @@ func sortedSetBody(s *simrt.Sim) {
 		s.Go(fmt.Sprintf("member%d", i), func() {
 			for _, o := range ops {
 				yields(o.pre)
+				c := &ecall{elems: o.a}
+				c.inv = s.Tick()
 				switch o.kind {
 				case 0:
+					adds = append(adds, c)
 					s.Logf("Add(%d)", o.a[0])
 					ss.Add(o.a[0])
 				case 1:
 					s.Logf("Delete(%d)", o.a[0])
 					ss.Delete(o.a[0])
 				case 2:
+					adds = append(adds, c)
 					s.Logf("AddAll%s", fmtInts(o.a))
 					ss.AddAll(ds.NewSet(o.a...))
 				case 3:
 					s.Logf("DeleteAll%s", fmtInts(o.a))
 					ss.DeleteAll(ds.NewSet(o.a...))
 				case 4:
+					adds = append(adds, c)
 					s.Logf("Replace%s", fmtInts(o.a))
 					ss.Replace(ds.NewSet(o.a...))
 				}
+				c.ret = s.Tick()
 				s.Logf("member op returned")
 			}
 		})
@@ -321,8 +344,12 @@ func sortedSetBody(s *simrt.Sim) {
 		s.Go(fmt.Sprintf("weigher%d", i), func() {
 			for _, o := range ops {
 				yields(o.pre)
+				c := &ecall{elems: []int{o.e}}
+				weighs = append(weighs, c)
+				c.inv = s.Tick()
 				s.Logf("weight[%d].Set(%d)", o.e, o.w)
 				weights[o.e].Set(o.w)
+				c.ret = s.Tick()
 				s.Logf("weight set returned")
 			}
 		})
@@ -336,31 +363,41 @@ func sortedSetBody(s *simrt.Sim) {
 	state := fmt.Sprintf("members %v ascending %v descending %v weights [%d %d %d %d] heaviest %d lightest %d",
 		members, asc, desc, wOf(1), wOf(2), wOf(3), wOf(4), ss.HeaviestElement().Get(), ss.LightestElement().Get())
 	s.Logf("final %s", state)
+	// a wrong final order is attributed to the insertion window if a weight update of an element overlapped a call
+	// that inserted the same element
+	suffix := ""
+	for _, a := range adds {
+		for _, wc := range weighs {
+			if hasInt(a.elems, wc.elems[0]) && a.overlaps(&wc.call) {
+				suffix = ":weight-update-overlapped-insertion-of-the-same-element"
+			}
+		}
+	}
 	if !eqInts(sortedInts(asc), members) {
-		s.Fail("sorted-set", "ascending-lists-other-elements-than-the-set", "%s", state)
+		s.Fail("sorted-set", "ascending-lists-other-elements-than-the-set"+suffix, "%s", state)
 	}
 	for i := range asc {
 		if len(desc) != len(asc) || desc[len(asc)-1-i] != asc[i] {
-			s.Fail("sorted-set", "descending-not-reverse-of-ascending", "%s", state)
+			s.Fail("sorted-set", "descending-not-reverse-of-ascending"+suffix, "%s", state)
 		}
 	}
 	for i := 1; i < len(asc); i++ {
 		if wOf(asc[i-1]) > wOf(asc[i]) {
-			s.Fail("sorted-set", "not-ordered-by-current-weight", "%s", state)
+			s.Fail("sorted-set", "not-ordered-by-current-weight"+suffix, "%s", state)
 		}
 	}
 	h, l := ss.HeaviestElement().Get(), ss.LightestElement().Get()
 	if len(asc) == 0 {
 		if h != 0 || l != 0 {
-			s.Fail("sorted-set", "heaviest-lightest-set-on-empty-set", "%s", state)
+			s.Fail("sorted-set", "heaviest-lightest-set-on-empty-set"+suffix, "%s", state)
 		}
 	} else {
 		// ties: any element of maximal / minimal weight is accepted
 		if !hasInt(members, h) || wOf(h) != wOf(asc[len(asc)-1]) {
-			s.Fail("sorted-set", "heaviest-element-wrong", "%s", state)
+			s.Fail("sorted-set", "heaviest-element-wrong"+suffix, "%s", state)
 		}
 		if !hasInt(members, l) || wOf(l) != wOf(asc[0]) {
-			s.Fail("sorted-set", "lightest-element-wrong", "%s", state)
+			s.Fail("sorted-set", "lightest-element-wrong"+suffix, "%s", state)
 		}
 	}
 }
